@@ -106,7 +106,13 @@ func pasteHosts() []pasteHost {
 	}
 }
 
+// corpusC07Hook inlines the macros of the repository's fixtures (set in the verif build).
+var corpusC07Hook func(c *fw.Ctx)
+
 func runC07(c *fw.Ctx) {
+	if corpusC07Hook != nil {
+		corpusC07Hook(c)
+	}
 	compare := func(label string, nodes []*doc.Node) {
 		if !c.Next() {
 			return
